@@ -36,6 +36,7 @@ func (l vfAddrListener) Addr() net.Addr { return vfAddr{} }
 //     names), listed before or after its certificate-preference entry, or
 //   - a plain TLS client of the application offering the application protocol plus one arbitrary name (possibly
 //     "special" or a reserved name).
+//
 // The harness accepts from the sub-listener the statement designates; a connection routed anywhere else leaves the
 // run deadlocked, which the engine reports (and the native twin reproduces as a timeout).
 func VerifC17Routing() {
